@@ -36,6 +36,7 @@ def apply_contract(I, con, f, args, kwargs, bound_self, caller=None):
         bindings[name] = _eval_value(I, lam, bindings)
     ctx.assumptions_used.add(f"contract:{con.qualname}")
     _observe(I, "call:" + (con.effect_name or con.qualname), tuple(args))
+    ctx.emit("call", con.effect_name or con.qualname, tuple(args), dict(kwargs))
     for cid, lam in con.requires_:
         fm = eval_clause(I, lam, bindings)
         ctx.check_obligation(f"{caller}::call[{short(con.qualname)}].{cid}", fm)
@@ -60,9 +61,15 @@ def apply_contract(I, con, f, args, kwargs, bound_self, caller=None):
     if con.self_spec is not None and isinstance(self_obj, SObj):
         spec = con.self_spec
         inv_before = [_z(f) for _i, f in spec.invariant_formulas(I, self_obj)] if con.check_inv else []
-        fields = spec.fields.keys() if con.modifies_ is None else [
+        fields = list(spec.fields.keys()) if con.modifies_ is None else [
             p.split(".", 1)[1] for p in con.modifies_ if p.startswith("self.")
         ]
+        from .engine import _is_async
+
+        if con.modifies_ is not None and _is_async(con):
+            for f_ in (spec.interference if spec.interference is not None else spec.fields):
+                if f_ not in fields and f_ + ".*" not in fields:
+                    fields.append(f_)
         for fld in fields:
             deep = fld.endswith(".*")
             if deep:
